@@ -200,6 +200,8 @@ class C06(runner.Check):
 			return_references=return_references)
 		if refs is not None:
 			kw["references"] = refs
+			if world.get("xseed", 0) % 3 == 0:
+				kw["n_shuffles"] = world["n_shuffles"] + 3     # ignored with a reference tensor
 		elif refgen is not None:
 			kw["references"] = refgen
 		elif world.get("refgen", "dinucleotide_shuffle") != "dinucleotide_shuffle":
